@@ -4,7 +4,8 @@
 From Coq Require Import List NArith ZArith Bool Lia Sorted.
 From YV Require Import Gen.PatConsts Pat.Syntax Pat.Sem Pat.Matcher Pat.MatcherProofs
   Pat.Modifiers Pat.ModifiersProofs Pat.MatchList Pat.MatchListProofs
-  Pat.C01Check Pat.C01CheckProofs Pat.Base64 Pat.Base64Proofs Pat.Chain Pat.ChainProofs.
+  Pat.C01Check Pat.C01CheckProofs Pat.Base64 Pat.Base64Proofs Pat.Chain Pat.ChainProofs
+  Pat.Atoms Pat.AtomsProofs Pat.Pipeline Pat.PipelineProofs Pat.PipelineB64Proofs.
 Import ListNotations.
 
 (* ---- R |= S : the reference matcher ------------------------------------ *)
@@ -186,3 +187,49 @@ Theorem split_at_large_gaps_preserves_language : forall nc d items i j,
   M nc d (join_chain (split_at_large_gaps items)) i j <-> M nc d (rcat items) i j.
 Proof. exact split_preserves_language. Qed.
 Print Assumptions split_at_large_gaps_preserves_language.
+
+(* ---- A : the scan pipeline for the literal family ----------------------- *)
+(* With correct atoms (atoms_ok, checked in K on the REAL atoms of the compiled
+   rules) and a search automaton that reports exactly the occurrences of the
+   atoms, in any order, the model of handle_atom_match / verify_* /
+   MatchList::add yields the reference list of the sub-pattern: Literal
+   (nocase or not, anchored or not), LiteralWithMask, Xor. *)
+Theorem scan_pipeline_literal_family : forall sp xr atoms d hits,
+  in_family sp = true ->
+  atoms_ok sp xr atoms = true ->
+  Forall (fun b => (b < 256)%N) d ->
+  (forall a, In a atoms -> a_sp a = 0) ->
+  hits_exact atoms d hits ->
+  scan_pipeline [sp] atoms hits d = map mtch_of (sp_ref sp xr d).
+Proof. exact pipeline_literal_family. Qed.
+Print Assumptions scan_pipeline_literal_family.
+
+(* the hit list used by K is admissible *)
+Theorem all_hits_admissible : forall atoms d, hits_exact atoms d (all_hits atoms d).
+Proof. exact all_hits_hits_exact. Qed.
+Print Assumptions all_hits_admissible.
+
+(* S <-> A: the sub-patterns c_literal_pattern produces (model compared with the
+   real dump in K) match exactly at the genuine occurrences of the text pattern *)
+Theorem compiled_text_pattern_means_genuine : forall text m d s len key,
+  text <> [] -> has_b64 m = false -> (tm_xor m = None \/ tm_nocase m = false) ->
+  (genuine (PText text m) d s len key <->
+   exists sp, In sp (compile_text text m) /\ sp_match sp (xor_range_of m) d s = Some (s + len, key)).
+Proof. exact compile_text_spec. Qed.
+Print Assumptions compiled_text_pattern_means_genuine.
+
+(* the 9-entry table of verify_base64 is the documented derivation *)
+Theorem base64_window_table : forall p n, p <= 2 -> 1 <= n ->
+  b64_table p (enc_len n) =
+  Some (core_start p, enc_len (p + n + (3 - (p + n) mod 3) mod 3), core_len p n).
+Proof. exact b64_table_formulas. Qed.
+Print Assumptions base64_window_table.
+
+(* Base64 / CustomBase64 (ascii encoding): what the model of verify_base64 returns
+   is an occurrence in the sense of the specification *)
+Theorem base64_pipeline_sound_ascii : forall lit d p pos alpha s e,
+  p <= 2 -> lit <> [] ->
+  verify_base64 lit d p pos alpha false = Some (s, e) ->
+  sp_match (mkSP (KBase64 lit p alpha false) (mkF false false false false)) (0, 0)%N d s = Some (e, None).
+Proof. exact pipeline_base64_sound_ascii_partial. Qed.
+Print Assumptions base64_pipeline_sound_ascii.
